@@ -20,6 +20,22 @@ Theorem C02_pipeline_bookkeeping : forall x c a r, pipeline x c a = Ok r ->
   (forall mr, In mr (o_metrics r) -> Z.of_nat (length (m_all mr)) = o_tp r).
 Proof. exact pipeline_bookkeeping. Qed.
 
+(* ... and the counts are those of the INPUT arrays: tp + fn is the number of reference instances of the input for every matcher
+   (matching never changes the reference); for matched input and the one-to-one threshold matcher tp + fp is the number of
+   predicted instances of the input (a one-to-one matching relabels the predictions injectively: nothing merges, nothing is lost) *)
+From Pan Require Import Proofs.C04Proofs Proofs.InputCounts.
+Theorem C02_counts_are_those_of_the_input : forall x c a r, nonneg_arr a -> pipeline x c a = Ok r ->
+  o_nr r = n_ref_inst a /\ o_tp r + o_fn r = n_ref_inst a /\
+  ((c_matcher c = 0 \/ c_matcher c = 1) -> o_np r = n_pred_inst a /\ o_tp r + o_fp r = n_pred_inst a).
+Proof. exact pipeline_counts_of_input. Qed.
+(* non-vacuity: two references, one prediction, nothing overlaps: tp 0, fp 1 = the one prediction, fn 2 = the two references *)
+Example C02_input_counts_nonvacuous :
+  let a := [(1, 0); (2, 0); (2, 0); (0, 7); (0, 0)] in
+  let x := {| x_inst := fun _ _ => 0%Q; x_pair := fun _ => 0%Q; x_union := fun _ _ => 0%Q |} in
+  let c := {| c_matcher := 1; c_mmetric := IOU; c_mthr := 1 # 2; c_ems := [IOU]; c_dm := None; c_dthr := None; c_handler := default_handler |} in
+  match pipeline x c a with Ok r => o_tp r = 0 /\ o_fp r = 1 /\ o_fn r = 2 /\ n_pred_inst a = 1 /\ n_ref_inst a = 2 | Err _ => False end.
+Proof. vm_compute. repeat split; reflexivity. Qed.
+
 (* an instance that fails the decision threshold is neither in the lists nor in tp *)
 Theorem C02_decision_threshold_filters_tp : forall x ems dmo thr a tp lists dicts,
   all_dicts x a (matched_labels a) ems = Ok dicts -> evaluate_matched x ems dmo thr a = Ok (tp, lists) ->
